@@ -690,7 +690,38 @@ func ruleMethodRewrite(c *Ctx) {
 		}
 		return false
 	}
-	n := 0
+	loadsMethod := func(g *ssa.Function) bool {
+		for _, in := range instrsOf(g) {
+			if v, ok := in.(ssa.Value); ok {
+				if f, _ := fieldLoad(v); isMethodField(f) {
+					return true
+				}
+			}
+		}
+		return false
+	}
+	httpMethods := map[string]bool{"GET": true, "HEAD": true, "POST": true, "PUT": true, "DELETE": true, "PATCH": true, "OPTIONS": true}
+	// testsMethodParam: the function compares one of its string parameters with an HTTP method name
+	testsMethodParam := func(g *ssa.Function) bool {
+		for _, in := range instrsOf(g) {
+			b, ok := in.(*ssa.BinOp)
+			if !ok || (b.Op != token.EQL && b.Op != token.NEQ) {
+				continue
+			}
+			x, y := b.X, b.Y
+			if _, isS := constString(x); isS {
+				x, y = y, x
+			}
+			if s, isS := constString(y); isS && httpMethods[s] {
+				if _, isP := x.(*ssa.Parameter); isP {
+					return true
+				}
+			}
+		}
+		return false
+	}
+	type job struct{ root, useFn *ssa.Function }
+	var jobs []job
 	for _, fn := range p.Repo {
 		if fn.Pkg == nil && fn.Parent() == nil {
 			continue
@@ -701,14 +732,46 @@ func ruleMethodRewrite(c *Ctx) {
 				has = true
 			}
 		}
-		if !has || !seesMethod(fn) {
+		if !has {
 			continue
 		}
+		if seesMethod(fn) {
+			jobs = append(jobs, job{fn, fn})
+			continue
+		}
+		if !testsMethodParam(fn) {
+			continue // a table from status codes to errors, not a decision on the request method
+		}
+		// the method is handed in as a parameter: decided from the callers that read it off the request
+		seen := map[*ssa.Function]bool{}
+		var up func(g *ssa.Function, d int)
+		up = func(g *ssa.Function, d int) {
+			if seen[g] || d > 3 {
+				return
+			}
+			seen[g] = true
+			if g != fn && loadsMethod(g) {
+				jobs = append(jobs, job{g, fn})
+				return
+			}
+			if nd := p.CG.Nodes[g]; nd != nil {
+				for _, e := range nd.In {
+					if e.Caller.Func != nil && e.Site != nil && p.isRepoFn(e.Caller.Func) && e.Site.Common().StaticCallee() == g {
+						up(e.Caller.Func, d+1)
+					}
+				}
+			}
+		}
+		up(fn, 0)
+	}
+	n := 0
+	for _, jb := range jobs {
+		fn, useFn := jb.root, jb.useFn
 		n++
 		c.inst(1)
 		sp := &Spec{InlineHelpers: true}
 		sp.Classify = func(t *Tracer, fr *Frame, in ssa.Instruction) []Ev {
-			if fr == t.RootFr && isUse(in) {
+			if (fr == t.RootFr || fr.Fn == useFn) && isUse(in) {
 				return []Ev{{Kind: "use"}}
 			}
 			return nil
